@@ -1004,6 +1004,7 @@ func buildCase(e *env, id int) lib.Case {
 		implJ = append(implJ, map[string]interface{}{"posts_at": at, "answers_at": rs, "result": o.class, "status": o.code,
 			"body": o.body, "returned_at": o.end.Sub(e.t0).String(), "error": o.errText})
 	}
+	tags = append(tags, "history:server-paced-failures-before-an-unpaced-one:"+pacedBeforeUnpaced(e))
 	note := oracle(e)
 	coq := fmt.Sprintf("CSession %s %s", lib.List(callers), lib.List(observed))
 	if anyNoSCT {
@@ -1017,6 +1018,49 @@ func buildCase(e *env, id int) lib.Case {
 		Note:   note,
 		Tags:   tags,
 	}
+}
+
+// pacedBeforeUnpaced: over the whole history of the client (all submissions, in the order of the
+// answers): the largest number of failures paced by the server (429 / 503 with a usable
+// Retry-After) seen before a failure the server did not pace and that was followed by another POST.
+func pacedBeforeUnpaced(e *env) string {
+	type ans struct {
+		at            time.Time
+		paced, repost bool
+		cl            string
+	}
+	var all []ans
+	for k, o := range e.obs {
+		for pos, d := range o.delivered {
+			ev := &e.sess.Callers[k].Evs[d.idx]
+			form, _, _ := raForm(ev.RA)
+			cl := evClass(ev)
+			all = append(all, ans{d.resp, cl == "retryRA" && (form == "seconds" || form == "date"), pos+1 < len(o.attempts), cl})
+		}
+	}
+	sort.SliceStable(all, func(i, j int) bool { return all[i].at.Before(all[j].at) })
+	paced, best := 0, -1
+	for _, a := range all {
+		switch {
+		case a.paced:
+			paced++
+		case (a.cl == "retry" || a.cl == "retryRA") && a.repost && paced > best:
+			best = paced
+		}
+	}
+	switch {
+	case best < 0:
+		return "no-unpaced-retry"
+	case best == 0:
+		return "0"
+	case best <= 4:
+		return "1-4"
+	case best <= 8:
+		return "5-8"
+	case best <= 16:
+		return "9-16"
+	}
+	return "17+"
 }
 
 func (o *callerObs) consumed() int {
@@ -1431,6 +1475,226 @@ func retryThenOK(r *mrand.Rand, i int, bodies bool) *session {
 	return &session{Profile: "transport-then-ok", Callers: []callerSpec{cs}}
 }
 
+// forms of a Retry-After the client cannot use (neither strconv.Atoi nor RFC 1123): the failure is not paced by the server
+var unusableRA = []string{"", "soon", "1.5", "1e3", " 5", "0x10", "Saturday, 01-Jan-00 00:05:00 GMT", "Sat, 01 Jan 2000 00:05:00 +0000"}
+
+// pacedRA: a Retry-After the client can use, asking for a short pause (seconds, also signed /
+// zero-padded / non-positive; an HTTP date around the instant of the answer, also long past).
+// hi = upper bound of the offset of the answer; returns the upper bound of the offset of the next POST.
+func pacedRA(r *mrand.Rand, hi time.Duration) (*string, time.Duration) {
+	p := func(s string) *string { return &s }
+	const jit = 250 * time.Millisecond
+	switch x := r.Intn(10); {
+	case x < 4:
+		n := r.Intn(6)
+		return p(strconv.Itoa(n)), hi + time.Duration(n)*time.Second + jit
+	case x < 5:
+		n := 6 + r.Intn(150)
+		return p(strconv.Itoa(n)), hi + time.Duration(n)*time.Second + jit
+	case x < 7:
+		f := []struct {
+			s string
+			n int
+		}{{"007", 7}, {"+7", 7}, {"-1", 0}, {"-0", 0}, {"-9223372036", 0}, {"-9223372037", 0}, {"00", 0}, {"128", 128}, {"129", 129}}[r.Intn(9)]
+		return p(f.s), hi + time.Duration(f.n)*time.Second + jit
+	}
+	if r.Intn(12) == 0 {
+		return p("Mon, 01 Jan 1000 00:00:00 GMT"), hi + jit
+	}
+	off := []time.Duration{-time.Hour, -time.Second, 0, time.Second, 2 * time.Second, 5 * time.Second, 30 * time.Second,
+		129 * time.Second, 200 * time.Second}[r.Intn(9)]
+	at := hi.Truncate(time.Second) + off
+	d := bubbleStart.Add(at)
+	if at > hi {
+		hi = at
+	}
+	return p(d.In(time.FixedZone("GMT", 0)).Format(time.RFC1123)), hi + jit
+}
+
+// pacedRun: a long history on ONE client - one to three submissions, one after another, every wait
+// served in full - in which the server paces many failures (429 / 503 with a Retry-After the
+// client can use; the back-off is never pending when they arrive) and then stops pacing: failures
+// WITHOUT a usable Retry-After follow (429 / 503 without the header or with one that is neither
+// seconds nor an RFC 1123 date, transport errors, unparsable 200 bodies, body read errors).  The
+// pause after those is the client's own: at most the 128 s cap plus jitter, however many paced
+// failures the client has seen before (the back-off state is one per client and survives the
+// submissions).  Plans: 9..14 paced failures, then 1..3 unpaced; 7 or 8 paced (just below the number
+// of exponential steps), 60..70 paced (more than the bits of the step), and mixed histories of
+// 10..16 failures ending with an unpaced one.  All but the last submission end with a final answer
+// (a 200 that parses, or another status); the last one ends with a 200 that parses.
+func pacedRun(r *mrand.Rand, i int) *session {
+	s := &session{Profile: "paced-run"}
+	var plan []bool // the failures of the whole history in order: true = paced by the server
+	add := func(n int, paced bool) {
+		for ; n > 0; n-- {
+			plan = append(plan, paced)
+		}
+	}
+	switch x := r.Intn(20); {
+	case x < 11:
+		add(9+r.Intn(6), true)
+		add(1+r.Intn(3), false)
+	case x < 14:
+		add(7+r.Intn(2), true)
+		add(1+r.Intn(3), false)
+	case x < 15:
+		add(60+r.Intn(11), true)
+		add(1+r.Intn(2), false)
+	default:
+		for n := 9 + r.Intn(7); n > 0; n-- {
+			plan = append(plan, r.Intn(5) < 3)
+		}
+		add(1, false)
+	}
+	cuts := map[int]bool{}
+	for c := r.Intn(3); c > 0; c-- {
+		cuts[1+r.Intn(len(plan)-1)] = true
+	}
+	const slack = time.Millisecond + 250*time.Millisecond
+	hi := time.Duration(r.Intn(3)) * time.Second // upper bound of the offset reached so far
+	cs := callerSpec{Start: hi, CtxEnd: -1, API: r.Intn(3)}
+	dur := func() time.Duration {
+		if r.Intn(5) == 0 {
+			return genDur(r)
+		}
+		return time.Duration(r.Intn(3)) * time.Millisecond
+	}
+	for j, paced := range plan {
+		if cuts[j] { // this submission gets a final answer; the next one starts when everything is over
+			term := evSpec{Dur: dur(), Kind: kResp, Code: 200, Parsable: true, Form: "std"}
+			if r.Intn(3) == 0 {
+				term = evSpec{Dur: dur(), Kind: kResp, Code: []int{404, 400, 500, 502}[r.Intn(4)]}
+			}
+			cs.Evs = append(cs.Evs, term)
+			s.Callers = append(s.Callers, cs)
+			hi += term.Dur + slack + []time.Duration{time.Millisecond, 100 * time.Millisecond, time.Second, 3 * time.Second, 200 * time.Second}[r.Intn(5)]
+			cs = callerSpec{Start: hi, CtxEnd: -1, API: r.Intn(3)}
+		}
+		ev := evSpec{Dur: dur(), Kind: kResp, Code: []int{429, 503}[r.Intn(2)]}
+		hi += ev.Dur + slack
+		if paced {
+			ev.RA, hi = pacedRA(r, hi)
+		} else {
+			switch r.Intn(6) {
+			case 0: // header absent
+			case 1:
+				ra := unusableRA[r.Intn(len(unusableRA))]
+				ev.RA = &ra
+			case 2, 3:
+				ev = evSpec{Dur: ev.Dur, Kind: kTransport}
+			case 4:
+				ev = evSpec{Dur: ev.Dur, Kind: kResp, Code: 200, Parsable: false}
+			default:
+				ev = evSpec{Dur: ev.Dur, Kind: kBodyErr, Code: []int{200, 500, 503, 404}[r.Intn(4)]}
+			}
+			dress(r, &ev)
+			hi += 128*time.Second + 250*time.Millisecond
+		}
+		cs.Evs = append(cs.Evs, ev)
+		if r.Intn(12) == 0 { // a 408 in between: retried at once, the back-off is not touched
+			e408 := evSpec{Dur: dur(), Kind: kResp, Code: 408}
+			hi += e408.Dur + slack
+			cs.Evs = append(cs.Evs, e408)
+		}
+	}
+	last := evSpec{Dur: dur(), Kind: kResp, Code: 200, Parsable: true, Form: []string{"std", "std", "padded"}[r.Intn(3)]}
+	hi += last.Dur + slack
+	cs.Evs = append(cs.Evs, last, evSpec{Kind: kResp, Code: 200, Parsable: true, Form: "std"})
+	if r.Intn(5) == 0 {
+		cs.CtxEnd, cs.Cancel = hi.Truncate(time.Millisecond)+time.Duration(100+r.Intn(900))*time.Second+500*time.Microsecond, r.Intn(2) == 0
+	}
+	s.Callers = append(s.Callers, cs)
+	return s
+}
+
+// sharedPacing: the server's pacing of ONE client met by ANOTHER submission of that client.
+// Submission A is answered 429 / 503 with a Retry-After the client can use (N seconds, written
+// plainly / signed / zero-padded, or the HTTP date of that instant); while that pause is still
+// running - A is sleeping on it (concurrent variant), or A has already returned because its context
+// ended (sequential variant) - submission B is answered something retryable: a 408 (half of the
+// cases: "retried without added delay" does not mean "retried before the server's instant"), a
+// transport error, a 200 that does not parse, a 429 / 503 without or with a shorter Retry-After, a
+// redirect that turned the POST into another method, a body read error.  B's next POST must not
+// come before the instant the server gave to this client; then both get a 200 that parses.
+func sharedPacing(r *mrand.Rand, i int) *session {
+	s := &session{Profile: "shared-pacing"}
+	ms := func(n int) time.Duration { return time.Duration(n) * time.Millisecond }
+	ok := func() evSpec {
+		return evSpec{Dur: ms(r.Intn(30)), Kind: kResp, Code: 200, Parsable: true, Form: []string{"std", "std", "padded"}[r.Intn(3)]}
+	}
+	a := callerSpec{CtxEnd: -1, API: r.Intn(3)}
+	tP := time.Duration(0) // offset of the pacing answer (a 408 before it is retried at once)
+	if r.Intn(3) == 0 {
+		e408 := evSpec{Dur: ms(1 + r.Intn(20)), Kind: kResp, Code: 408}
+		a.Evs = append(a.Evs, e408)
+		tP += e408.Dur
+	}
+	n := []int{2, 3, 5, 10, 30, 127, 128, 129, 161, 300}[r.Intn(10)]
+	pace := evSpec{Dur: ms(1 + r.Intn(500)), Kind: kResp, Code: []int{429, 503}[r.Intn(2)]}
+	tP += pace.Dur
+	var ra string
+	switch r.Intn(6) {
+	case 0:
+		ra = "+" + strconv.Itoa(n)
+	case 1:
+		ra = "00" + strconv.Itoa(n)
+	case 2, 3:
+		ra = bubbleStart.Add(tP.Truncate(time.Second) + time.Duration(n+1)*time.Second).In(time.FixedZone("GMT", 0)).Format(time.RFC1123)
+	default:
+		ra = strconv.Itoa(n)
+	}
+	pace.RA = &ra
+	a.Evs = append(a.Evs, pace, ok(), evSpec{Kind: kResp, Code: 200, Parsable: true, Form: "std"})
+	window := time.Duration(n) * time.Second // the server's pause lasts at least until tP + window
+	b := callerSpec{CtxEnd: -1, API: r.Intn(3)}
+	base := tP.Truncate(time.Millisecond) + ms(1)
+	if i%2 == 0 { // sequential: A's context ends during the pause, B is submitted afterwards, still during the pause
+		cut := base + ms(r.Intn(n*400))
+		a.CtxEnd, a.Cancel = cut+500*time.Microsecond, r.Intn(3) == 0
+		base = cut + ms(1)
+	}
+	b.Start = base + ms(r.Intn(int((tP+window/2-base)/time.Millisecond)+1))
+	if b.Start > tP+window/2 {
+		b.Start = base
+	}
+	// B's first answer arrives (well) within the pause: at most 400 ms after a start in its first half (n >= 2)
+	met := evSpec{Dur: ms(1 + r.Intn(400)), Kind: kResp, Code: 408}
+	switch r.Intn(12) {
+	case 0, 1:
+		met.Kind, met.Code = kTransport, 0
+	case 2:
+		met.Code, met.Parsable = 200, false
+	case 3:
+		met.Code = []int{429, 503}[r.Intn(2)]
+		if r.Intn(2) == 0 {
+			u := unusableRA[r.Intn(len(unusableRA))]
+			met.RA = &u
+		}
+	case 4: // a shorter pause asked for while the longer one is running
+		met.Code = []int{429, 503}[r.Intn(2)]
+		sh := []string{"0", "1", "-1", "Mon, 01 Jan 1000 00:00:00 GMT", bubbleStart.Add(-time.Hour).In(time.FixedZone("GMT", 0)).Format(time.RFC1123)}[r.Intn(5)]
+		met.RA = &sh
+	case 5:
+		met.Kind, met.Hops, met.Code, met.Parsable = kRedirect, genHops(r, true), 200, true
+	case 6:
+		met.Kind, met.Code = kBodyErr, []int{200, 500, 503, 404}[r.Intn(4)]
+	}
+	dress(r, &met)
+	if met.Kind == kTransport && met.Shape == "client-timeout" {
+		met.Shape = "plain"
+	}
+	b.Evs = append(b.Evs, met)
+	if r.Intn(4) == 0 { // and a 408 once the pause is over: retried at once
+		b.Evs = append(b.Evs, evSpec{Dur: ms(1 + r.Intn(20)), Kind: kResp, Code: 408})
+	}
+	b.Evs = append(b.Evs, ok(), evSpec{Kind: kResp, Code: 200, Parsable: true, Form: "std"})
+	if r.Intn(4) == 0 {
+		b.CtxEnd, b.Cancel = (tP+window).Truncate(time.Millisecond)+ms(2000+r.Intn(200000))+501*time.Microsecond, r.Intn(2) == 0
+	}
+	s.Callers = []callerSpec{a, b}
+	return s
+}
+
 func genSession(r *mrand.Rand, i int) *session {
 	switch x := i % 24; {
 	case x >= 22:
@@ -1519,6 +1783,8 @@ func TestHarness(t *testing.T) {
 	r := lib.Rand()
 	w := lib.NewWriter(header, 120)
 	n := lib.Count(500, 12000)
+	nPaced := lib.Count(40, 600)  // a stream of its own after the others: long server-paced histories (pacedRun)
+	nShared := lib.Count(40, 600) // and another: the server's pacing met by another submission of the same client (sharedPacing)
 	var cur int
 	var curSess *session
 	done := make(chan struct{})
@@ -1537,8 +1803,16 @@ func TestHarness(t *testing.T) {
 			}
 		}
 	}()
-	for i := 0; i < n; i++ {
-		s := genSession(r, i)
+	for i := 0; i < n+nPaced+nShared; i++ {
+		var s *session
+		switch {
+		case i < n:
+			s = genSession(r, i)
+		case i < n+nPaced:
+			s = pacedRun(r, i)
+		default:
+			s = sharedPacing(r, i)
+		}
 		bound(s)
 		finish(s)
 		cur, curSess = i, s
